@@ -34,7 +34,7 @@ Section RunProofs.
   (* ---------------------------------------------------------------- *)
   (** ** apply_parameters_decode *)
 
-  (** ApplyParameters always yields one live wview per parameter (closed form
+  (** ApplyParameters always yields one live view per parameter (closed form
       [pviews_from]); reading cell [i]'s parameters through those views gives,
       per parameter, the values at the flat offsets [param_offs]:
       [row * nSets + i mod nSets] for the rows [param_rows] of the cell's own
